@@ -1,10 +1,155 @@
-(* C13 - chunk wire/save conversions: property theorems only. *)
-From Coq Require Import List NArith ZArith.
-From GoMC Require Import Base.Bytes Base.Dec Model.C13 Proofs.C13.
+(* C13 - chunk wire/save conversions: property theorems only.
+   Model: Model/C13.v; proofs: Proofs/C13.v (counter), C13_nbt.v (NBT pieces), C13_wire.v (network form).
+   The network-form theorem is parametric in the paletted container (C12's subject): any container codec
+   whose ReadFrom after WriteTo returns the same array of ids with exact consumption, for every
+   destination of the same geometry, can be plugged in. *)
+From Coq Require Import List NArith ZArith Lia.
+From GoMC Require Import Base.Bytes Base.Dec Model.C05 Model.C06 Model.C11 Model.C13
+  Proofs.C13 Proofs.C13_nbt Proofs.C13_wire.
+From GoMC Require Model.C01 Proofs.C11.
 Import ListNotations.
 Open Scope N_scope.
 
-Theorem C13_hm_bits_24 : hm_bits 24 = 9%Z.
-Proof. exact hm_bits_24. Qed.
+(* NETWORK FORM.  For every chunk c satisfying chunk_ok (counters are int16, containers satisfy their
+   invariant, light arrays and block-entity fields in their protocol ranges, block-entity NBT either
+   absent or the payload of a well-formed tag, MOTION_BLOCKING / WORLD_SURFACE well-formed storages of
+   the width and length the DESTINATION's section count asks for), EVERY destination chunk d with
+   compatible containers - whatever its counters, height maps, block entities (length, spare capacity,
+   stale elements), light and status were - and EVERY continuation `rest` of the stream:
+   WriteTo succeeds; ReadFrom succeeds, returns the number of bytes written and leaves `rest` untouched;
+   every section of the result has the block count, the block states and the biomes of c's section and
+   KEEPS the light arrays of d's section; MOTION_BLOCKING and WORLD_SURFACE are c's storages (identical,
+   longs and geometry); the other four height maps and the status are d's, unchanged; the block entities
+   are exactly c's. *)
+Theorem C13_wire :
+  forall (cont : Type) (pc_write : cont -> list N) (pc_read : bool -> cont -> dec (cont * N))
+         (X : Type) (pc_abs : cont -> X) (pc_good : cont -> Prop) (pc_compat : cont -> cont -> Prop),
+  (forall b d, robust (pc_read b d)) ->
+  (forall b c d rest, pc_good c -> pc_compat c d ->
+     exists c' n, run_flat (pc_read b d) (pc_write c ++ rest) = FOk (c', n) rest /\ pc_abs c' = pc_abs c) ->
+  forall (c d : chunk cont) fuel rest,
+  chunk_ok cont pc_write pc_good pc_compat c d -> (wire_fuel cont c <= fuel)%nat ->
+  exists img c', chunk_write cont pc_write c = Some img /\
+    run_flat (chunk_read cont pc_read fuel d) (img ++ rest) = FOk (c', lenN img) rest /\
+    Forall3 (sec_rel cont X pc_abs) (c_secs c) (c_secs d) (c_secs c') /\
+    hMB (c_hm c') = hMB (c_hm c) /\ hWS (c_hm c') = hWS (c_hm c) /\
+    hWSWG (c_hm c') = hWSWG (c_hm d) /\ hOFWG (c_hm c') = hOFWG (c_hm d) /\
+    hOF (c_hm c') = hOF (c_hm d) /\ hMBNL (c_hm c') = hMBNL (c_hm d) /\
+    c_bes c' = c_bes c /\ c_status c' = c_status d.
+Proof. exact wire_roundtrip. Qed.
 
-Print Assumptions C13_hm_bits_24.
+(* the height maps travel as the network-format NBT compound {MOTION_BLOCKING: [L;..], WORLD_SURFACE: [L;..]}
+   (C01's textbook encoding), and reading it back gives both arrays and consumes exactly the image *)
+Theorem C13_heightmap_nbt : forall mb ws, longs_ok mb -> longs_ok ws ->
+  hm_write mb ws = C01.doc C01.Net []
+    (C01.TCompound [(nameMB, C01.TLongArray (map sx64 mb)); (nameWS, C01.TLongArray (map sx64 ws))]).
+Proof. exact hm_write_doc. Qed.
+Theorem C13_heightmap_read : forall mb ws fuel rest, longs_ok mb -> longs_ok ws ->
+  (length mb + length ws + 4 <= fuel)%nat ->
+  run_flat (C01.tee (hm_read fuel)) (hm_write mb ws ++ rest) = FOk ((Some mb, Some ws), hm_write mb ws) rest.
+Proof. exact hm_tee_rt. Qed.
+
+(* one block entity into ANY prior content of the slot (C06's element condition for Ary) *)
+Theorem C13_block_entity : forall fuel b old rest, bent_ok b -> (length (e_data b) < fuel)%nat ->
+  run_flat (be_read fuel old) (fst (be_write (bent_val b)) ++ rest)
+  = FOk (bent_val b, lenN (fst (be_write (bent_val b)))) rest.
+Proof.
+  intros fuel b old rest Hb Hf. destruct (be_elem_ok fuel b Hb Hf old rest) as (r & Hr & E).
+  subst r. exact Hr.
+Qed.
+
+(* no reader of the network form issues a bare Read (feeds C09) *)
+Theorem C13_robust_parts : forall fuel o, robust (hm_read fuel) /\ robust (be_read fuel o).
+Proof. intros. split; [apply hm_read_robust|apply be_read_robust]. Qed.
+
+(* THE COUNTER.  For any container whose Get/Set are point lookup/update on the array it denotes
+   (C12_refines), any section whose counter is right, and EVERY history of in-range SetBlock calls:
+   the counter equals the number of non-air blocks, and the section holds exactly what the same
+   history of point updates gives (no other position changes). *)
+Theorem C13_count :
+  forall (cont : Type) (pc_get : cont -> Z -> Z) (pc_set : cont -> Z -> Z -> cont) (is_air : Z -> bool)
+         (abs : cont -> list Z),
+  (forall c i, (0 <= i < Z.of_nat (length (abs c)))%Z -> pc_get c i = nth (Z.to_nat i) (abs c) 0%Z) ->
+  (forall c i v, (0 <= i < Z.of_nat (length (abs c)))%Z -> abs (pc_set c i v) = upd_nth (abs c) (Z.to_nat i) v) ->
+  forall ops s, (Z.of_nat (length (abs (snd s))) <= 32767)%Z ->
+  fst s = non_air is_air (abs (snd s)) ->
+  Forall (fun iv => (0 <= fst iv < Z.of_nat (length (abs (snd s))))%Z) ops ->
+  fst (set_blocks cont pc_get pc_set is_air s ops) = non_air is_air (abs (snd (set_blocks cont pc_get pc_set is_air s ops))) /\
+  abs (snd (set_blocks cont pc_get pc_set is_air s ops)) =
+    fold_left (fun a iv => upd_nth a (Z.to_nat (fst iv)) (snd iv)) ops (abs (snd s)).
+Proof.
+  intros cont pc_get pc_set is_air abs Hg Hs ops s Hl Hc Hops.
+  exact (set_blocks_counted cont pc_get pc_set is_air abs Hg Hs ops s Hl Hc Hops).
+Qed.
+
+(* instantiated with the array container, from the empty section: unconditional *)
+Theorem C13_count_empty : forall (is_air : Z -> bool) ops, is_air 0%Z = true ->
+  Forall (fun iv => (0 <= fst iv < 4096)%Z) ops ->
+  fst (arr_set_blocks is_air (0%Z, repeat 0%Z 4096) ops)
+  = non_air is_air (snd (arr_set_blocks is_air (0%Z, repeat 0%Z 4096) ops)).
+Proof.
+  intros is_air ops Hair Hops.
+  pose proof (set_blocks_counted (list Z) arr_get arr_set is_air (fun a => a) arr_get_abs arr_set_abs ops
+                (0%Z, repeat 0%Z 4096)) as H.
+  cbn [fst snd] in H. rewrite repeat_length in H.
+  destruct H as [H _]; [lia| |exact Hops|exact H].
+  unfold counted. cbn [fst snd]. unfold non_air.
+  assert (E: forall n, filter (fun v => negb (is_air v)) (repeat 0%Z n) = []).
+  { induction n as [|n IH]; [reflexivity|]. cbn [repeat filter]. rewrite Hair. exact IH. }
+  rewrite E. reflexivity.
+Qed.
+
+(* ---------- non-vacuity ---------- *)
+(* the hypotheses of C13_wire are satisfiable: a one-byte container (ReadFrom = one byte) *)
+Definition byte_read (_ : bool) (_ : N) : dec (N * N) := ReadByte (fun b => Ret (b, 1)).
+Example C13_ex_container :
+  (forall b d, robust (byte_read b d)) /\
+  (forall b (c d : N) rest, True -> True ->
+     exists c' n, run_flat (byte_read b d) ((fun c => [c]) c ++ rest) = FOk (c', n) rest /\ c' = c).
+Proof. split; [repeat constructor|]. intros. exists c, 1. split; reflexivity. Qed.
+
+(* the concrete model on a concrete chunk: one section (a 4-bit linear block palette with three
+   states, a single-valued biome palette), sky light, one block entity carrying a compound, read into a
+   USED chunk with other contents, a stale block entity and trailing bytes *)
+Definition ex_bs (b : Z) (n : Z) (d : list N) : bstore := mkBS d (mk_mask b) b n (Z.quot 64 b).
+Definition ex_states : wcont := mkWC 2 kLinear [0; 9; 85]%Z (ex_bs 4 4096 (0x210 :: repeat 0 255)).
+Definition ex_biomes : wcont := mkWC 0 kSingle [7]%Z (mkBS [] 0 0 64 0).
+Definition ex_hm (v : N) : option bstore := Some (ex_bs 5 256 (repeat v 22)).
+Definition ex_src : wchunk :=
+  mkChunk [mkSec 2%Z ex_states ex_biomes (Some (repeat 255 2048)) None]
+          (mkHM (ex_hm 1) (ex_hm 2) (ex_hm 3) (ex_hm 4) (ex_hm 5) (ex_hm 6))
+          [mkBE (-1) 70 5 10 [1; 0; 1; 120; 1; 0]%N] [] [102; 117; 108; 108].
+Definition ex_dst : wchunk :=
+  mkChunk [mkSec 77%Z (mkWC 0 kSingle [3]%Z (mkBS [] 0 0 4096 0)) (mkWC 0 kSingle [1]%Z (mkBS [] 0 0 64 0))
+                 None (Some [9])]
+          (mkHM (ex_hm 11) (ex_hm 12) (ex_hm 13) (ex_hm 14) (ex_hm 15) (ex_hm 16))
+          [mkBE 1 2 3 8 [0; 1; 65]] [mkBE 4 5 6 0 []] [101].
+Example C13_ex_wire :
+  match wchunk_write ex_src with
+  | Some img =>
+      lenN img = 6574 /\
+      match run_flat (wchunk_read 300 15 6 ex_dst) (img ++ [1; 2; 3]) with
+      | FOk (c', n) rest =>
+          n = lenN img /\ rest = [1; 2; 3] /\
+          map (fun s => (s_count s, wc_abs 4 (s_states s), wc_abs 2 (s_biomes s), s_sky s, s_blk s)) (c_secs c')
+            = [(2%Z, Some [0; 9; 85; 0]%Z, Some [7; 7]%Z, None, Some [9])] /\
+          hMB (c_hm c') = ex_hm 5 /\ hWS (c_hm c') = ex_hm 2 /\ hOF (c_hm c') = ex_hm 14 /\
+          c_bes c' = c_bes ex_src /\ c_status c' = [101]
+      | _ => False
+      end
+  | None => False
+  end.
+Proof. vm_compute. repeat split; reflexivity. Qed.
+
+Example C13_ex_count :
+  arr_set_blocks (fun v => Z.eqb v 0) (0%Z, repeat 0%Z 8) [(1, 5); (1, 0); (2, 7); (2, 9); (7, 1)]%Z
+  = (2%Z, [0; 0; 9; 0; 0; 0; 0; 1]%Z).
+Proof. vm_compute. reflexivity. Qed.
+
+Print Assumptions C13_wire.
+Print Assumptions C13_heightmap_nbt.
+Print Assumptions C13_heightmap_read.
+Print Assumptions C13_block_entity.
+Print Assumptions C13_robust_parts.
+Print Assumptions C13_count.
+Print Assumptions C13_count_empty.
